@@ -375,6 +375,15 @@ neutral("N.decode-len-compare-flipped", "decode compares src.len() < body_length
         (CODEC, "        if (self.header.body_length as usize) > src.len() {\n            return Ok(None);", "        if src.len() < (self.header.body_length as usize) {\n            return Ok(None);"))
 neutral("N.timer-explicit-burst", "the timer states the default catch-up behaviour explicitly",
         (TIMER, "        let mut interval = interval_at(start, Duration::from_secs(1));", "        let mut interval = interval_at(start, Duration::from_secs(1));\n        interval.set_missed_tick_behavior(tokio::time::MissedTickBehavior::Burst);"), properties=["C20"])
+neutral("N.slot-guard", "the permit is returned by the Drop of a guard value owned by the Client",
+        (CLIENT, "    limit_connections: Arc<Semaphore>,\n}\n\nimpl Client {", "    slot: SlotGuard,\n}\n\n/// returns the connection slot when the connection task ends, however it ends\nstruct SlotGuard {\n    limit_connections: Arc<Semaphore>,\n}\n\nimpl Drop for SlotGuard {\n    fn drop(&mut self) {\n        self.limit_connections.add_permits(1);\n    }\n}\n\nimpl Client {"),
+        (CLIENT, "            handler: handler::BinaryHandler::new(store),\n            limit_connections,\n        }", "            handler: handler::BinaryHandler::new(store),\n            slot: SlotGuard { limit_connections },\n        }"),
+        (CLIENT, "        self.limit_connections.add_permits(1);\n    }\n}\n\nfn log_error", "    }\n}\n\nfn log_error"),
+        properties=["C17", "C18", "C10", "C16"])
+neutral("N.policy-get-by-trait-default", "RandomPolicy drops its get override: the trait's default get runs the same two inner calls",
+        (POLICY, "    fn get(&self, key: &KeyType) -> Result<Record> {\n        self.store.get(key)\n    }\n\n", ""))
+neutral("N.delete-entry-api", "MemoryStore::delete through the entry API (compare and remove under the shard lock)",
+        (STORE, '        let mut cas_match: Option<bool> = None;\n        match self.memory.remove_if(&key, |_key, record| -> bool {\n            let result = header.cas == 0 || record.header.cas == header.cas;\n            cas_match = Some(result);\n            result\n        }) {\n            Some(key_value) => Ok(key_value.1),\n            None => match cas_match {\n                Some(_value) => Err(CacheError::KeyExists),\n                None => Err(CacheError::NotFound),\n            },\n        }', '        match self.memory.entry(key) {\n            Entry::Occupied(entry) => {\n                if header.cas == 0 || entry.get().header.cas == header.cas {\n                    Ok(entry.remove())\n                } else {\n                    Err(CacheError::KeyExists)\n                }\n            }\n            Entry::Vacant(_vacant) => Err(CacheError::NotFound),\n        }'))
 neutral("N.request-valid-reordered", "request_valid tests in another order and with <=",
         (CODEC, "        if self.header.extras_length > 20 {\n            return false;\n        }\n\n        if self.header.key_length > 250 {\n            return false;\n        }", "        if self.header.key_length >= 251 {\n            return false;\n        }\n\n        if !(self.header.extras_length <= 20) {\n            return false;\n        }"))
 neutral("N.handler-get-key-len-once", "hit response computes key length once",
